@@ -252,11 +252,23 @@ def _complete(prof, hit):
     return 2 * (hit["e"] - hit["s"]) > prof[hit["p"]]["len"]
 
 
+def _domains(prof, hits):
+    """ what can compete for a stretch of the protein: every hit, and the hull of every same-profile pair
+        close enough to be merged into one domain; (p, s, e, indices of the hits it is made of) """
+    domains = [{"p": h["p"], "s": h["s"], "e": h["e"], "of": {i}} for i, h in enumerate(hits)]
+    for (i, a), (j, b) in itertools.combinations(enumerate(hits), 2):
+        if a["p"] != b["p"]:
+            continue
+        low, high = min(a["s"], b["s"]), max(a["e"], b["e"])
+        if 2 * (high - low) < 3 * prof[a["p"]]["len"]:
+            domains.append({"p": a["p"], "s": low, "e": high, "of": {i, j}})
+    return domains
+
+
 def _refine_features(case):
     prof, hits = case["prof"], case["hits"]
     feats = set()
     pairs = list(itertools.combinations(hits, 2))
-    overlapping = [(a, b) for a, b in pairs if _overlaps(prof, a, b)]
     if any(a["s"] == b["s"] for a, b in pairs):
         feats.add("equal_starts")
     for a, b in pairs:
@@ -267,18 +279,19 @@ def _refine_features(case):
             feats.add("same_profile_pair_too_far_to_merge")
         if first["s"] == second["s"] or second["e"] < first["e"]:
             feats.add("same_profile_nested_fragment")
-    if overlapping:
-        feats.add("overlapping_pair")
-    # a hit that overlaps two others beyond the margin (middle of a chain or hub of a star)
-    for hit in hits:
-        partners = [b if a is hit else a for a, b in overlapping if a is hit or b is hit]
-        if len(partners) >= 2:
-            feats.add("hit_overlaps_two_others")
+    domains = _domains(prof, hits)
+    clash = [(x, y) for x, y in itertools.combinations(domains, 2) if not x["of"] & y["of"] and _overlaps(prof, x, y)]
+    if clash:
+        feats.add("overlapping_domains")
+    # a short (incomplete) hit that overlaps another hit or mergeable pair beyond the margin
+    if any(len(x["of"]) == 1 and not _complete(prof, x) for pair in clash for x in pair):
+        feats.add("incomplete_hit_overlaps_a_domain")
+    # the middle of a chain / the hub of a star: a domain that overlaps two others
+    for mid in domains:
+        partners = [y if x is mid else x for x, y in clash if x is mid or y is mid]
+        if any(not a["of"] & b["of"] for a, b in itertools.combinations(partners, 2)):
+            feats.add("domain_overlaps_two_others")
             break
-    if any(not _complete(prof, a) or not _complete(prof, b) for a, b in overlapping):
-        feats.add("incomplete_hit_overlaps_another")
-    if any(a["p"] == b["p"] for a, b in pairs) and len({h["p"] for h in hits}) > 1:
-        feats.add("same_profile_pair_and_other_profile")
     return sorted(feats)
 
 
@@ -316,12 +329,20 @@ def _compete_features(case):
     return sorted(feats)
 
 
+def _nooverlap_features(case):
+    hits, limit = case["hits"], case["limit"]
+    leftmost = min(h["s"] for h in hits)
+    if any(h["s"] == leftmost and h["e"] - h["s"] < limit for h in hits):
+        return ["a_leftmost_hit_shorter_than_limit"]
+    return []
+
+
 def _features(case):
     if case["op"] == "refine":
         return _refine_features(case)
     if case["op"] == "compete":
         return _compete_features(case)
-    return []
+    return _nooverlap_features(case)
 
 
 def _nontrivial(case):
